@@ -9,7 +9,7 @@ import (
 )
 
 func init() {
-	register("C06", []string{"./src/core/..."}, checkC06)
+	register("C06", []string{"./src/core/...", "./src/cmap/..."}, checkC06)
 	register("C25", []string{"./src/gc/...", "./src/core/..."}, checkC25)
 }
 
@@ -54,6 +54,8 @@ func mapOf(v ssa.Value) ssa.Value {
 func checkC06(p *Prog, r *Report) {
 	r.Explanation = "Conditional structural clauses of cycle detection. They apply to the implementation found by identity — cycleDetector.Check and the closure in it that calls itself — when it is a depth-first search with an on-stack set (a captured map that is inserted into before the recursion and whose membership test returns a non-nil cycle); if a future rewrite uses another algorithm the clauses are reported as not applicable (informational), not as violations. (1) completeness of roots: no iteration over graph.AllTargets() can finish without calling visit unless the target is already in the finished set. (2) on-stack discipline: the membership test on the on-stack set dominates the insertion; every return of visit with a nil cycle that happens after the insertion has removed the target from the on-stack set and added it to the finished set (otherwise a node left on the 'stack' is later reported as a cycle: acyclic graphs reported as cyclic); the finished set is written only there (marking a node finished before its dependencies were explored hides cycles through it). (3) the reported cycle is a chain of real edges: a non-nil cycle returned by visit is the one-element slice of the current target on the on-stack hit, the recursive result passed through, or the current target prepended to the recursive result, and the recursion is on elements of target.Dependencies(). (4) Check returns a cycle only from visit's non-nil result. Soundness/completeness over all graphs is an algorithmic property and is NOT decided."
 	r.NotCovered = []string{"that the DFS finds every cycle (algorithmic completeness)", "the `done` flag protocol that trims the prefix of the reported path", "concurrent modification of the graph while the detector runs"}
+	p.dependencyIdentityRule(r)
+	p.valuesVisitsEveryShard(r, "cmap/E5.values-complete")
 	check := p.Fn("core", "cycleDetector.Check")
 	if check == nil {
 		r.unresolved("E5.dfs-roots", "core.cycleDetector.Check")
